@@ -15,7 +15,8 @@
     with the implementation's. *)
 From PM Require Import Model.Prelude Model.Domain Model.BindMaps Model.DomString Model.DomMatrix
   Model.Automaton Model.Traversal Cert.WfCheck Cert.ExampleAut
-  Model.Toposort Proofs.ToposortProofs Proofs.BindMapHistories Proofs.BindMapMatrixProofs Proofs.StringTotal Proofs.MatrixTotal Cert.CharCert.
+  Model.Toposort Proofs.ToposortProofs Proofs.BindMapHistories Proofs.BindMapMatrixProofs Proofs.StringTotal Proofs.MatrixTotal Cert.CharCert
+  Model.DomPGKeys Model.DomPG Proofs.RunTotal Proofs.PGTotal.
 
 Theorem c08_toposort_next_total_partial :
   forall g order, t_closed g ->
@@ -44,6 +45,16 @@ Theorem c08_matrix_run_total :
     exists fuel0, forall fuel, (fuel0 <= fuel)%nat -> exists ms, run matrix_dom fuel A h = Ok ms.
 Proof. exact m_run_total. Qed.
 
+(** port graphs (modelled host side): matching never reaches a panic site — in
+    particular never the [expect] of root_candidates.rs free_ports, because every
+    bound AlongPath key has its root bound; termination is not proved for this
+    domain (exploration) *)
+Theorem c08_portgraph_run_no_panic :
+  forall (A : automaton pgkey pgpred) (rk : list (N * nat)) (ids : list N) (h : pghost) (fuel : nat),
+    wf_check pg_dom A rk ids = true -> arity_ok pg_dom A = true ->
+    match run pg_dom fuel A h with Panic _ => False | _ => True end.
+Proof. exact pg_run_no_panic. Qed.
+
 Example c08_example :
   wf_check string_dom ex_aut (compute_rank ex_aut) [0; 1; 2]%N = true /\ arity_ok string_dom ex_aut = true.
 Proof. vm_compute. auto. Qed.
@@ -51,5 +62,6 @@ Proof. vm_compute. auto. Qed.
 Print Assumptions c08_toposort_next_total_partial.
 Print Assumptions c08_string_run_total.
 Print Assumptions c08_matrix_run_total.
+Print Assumptions c08_portgraph_run_no_panic.
 Print Assumptions c08_string_retain_total_partial.
 Print Assumptions c08_matrix_retain_total_partial.
